@@ -827,7 +827,7 @@ func c03StageLoop(c *Ctx, docs [][]byte, names []string) error {
 	if err != nil {
 		return err
 	}
-	outDomain := 0
+	outDomain, nDiff := 0, 0
 	for i, cs := range cases {
 		o := c03OptsOf(cs.mask)
 		key := fmt.Sprintf("%s [%s stub=%v]", cs.name, o, cs.stub)
@@ -844,6 +844,10 @@ func c03StageLoop(c *Ctx, docs [][]byte, names []string) error {
 			continue
 		}
 		if !bytes.Equal(got, cs.out) {
+			nDiff++
+			if nDiff > 8 { // keep room in the report for failing inputs found by the property oracle
+				continue
+			}
 			in := h.Q(cs.doc)
 			if len(in) > 600 {
 				in = cs.name
@@ -851,7 +855,7 @@ func c03StageLoop(c *Ctx, docs [][]byte, names []string) error {
 			c.R.Add(h.Finding{Stage: st.Name, Kind: "diff", What: "model.c03.minify", Input: in, Hex: h.Hex(c03Clip(cs.doc)), Config: fmt.Sprintf("%s stub=%v", o, cs.stub), Impl: c03DiffAt(cs.out, got), Model: c03DiffAt(got, cs.out)})
 		}
 	}
-	c.R.Note("loop: %d documents skipped (lexer error other than EOF), %d runs returned an error, %d runs outside the modelled domain (ext table)", lexErrs, errs, outDomain)
+	c.R.Note("loop: %d documents skipped (lexer error other than EOF), %d runs returned an error, %d runs outside the modelled domain (ext table), %d model/implementation differences", lexErrs, errs, outDomain, nDiff)
 	st.End()
 	return nil
 }
